@@ -64,6 +64,7 @@ def run(pid, tier):
     docs += [(n, t.encode("utf-8")) for n, t in docgen.documents(n_gen, seed())]
     sys_all = [(n, t.encode("utf-8")) for n, t in docgen.systematic(seed(), docgen.SYS_POOL)]
     sys_pick = {n for n, _t in docgen.systematic(seed(), 700 if tier == "quick" else docgen.SYS_POOL)}
+    docs += [(n, t.encode("utf-8")) for n, t in docgen.fix_families()]        # nested, ordinary-looking documents: all of them in both tiers
     docs += sys_all          # quick: the whole systematic pool under "all rules"; the rotation of single rules on a subset
     rnd = random.Random(seed())
     jobs = []
